@@ -685,9 +685,10 @@ impl Phase for MacroBuilt {
                 if r.is_ok() {
                     out.violation("context/context_map", "context_map! { \"a\" => int 1, \"a\" => float 2.0 }".into(), "an expected-type error".into(), "Ok(context)".into());
                 }
-                model.vars.insert("a".into(), RV::Int(1));
+                // a repeated key: entries are applied in order, the last one wins
+                model.vars.insert("a".into(), RV::Int(3));
                 model.vars.insert("b".into(), RV::Int(2));
-                context_map! { "a" => int 1, "b" => int 2 }
+                context_map! { "a" => int 1, "b" => int 2, "a" => int 3 }
             },
             _ => {
                 for (k, v) in [
